@@ -261,3 +261,50 @@ class RuleProxy:
 
     def floor(self, rule, *a, **kw):
         return self._r.floor(self._rule, *a, **kw)
+
+
+def var_read_sites(fn, pv, op, bi, si, var_local, _seen=None, _depth=0):
+    """Program points (block, statement) at which `var_local` is read on the data flow into operand `op` evaluated at (bi, si).
+    Temporaries are traced back through their reaching definitions; calls are traced through their arguments."""
+    from analysis.ir import op_place
+    out = set()
+    _seen = _seen if _seen is not None else set()
+    if _depth > 40:
+        return out
+    pl = op_place(op) if isinstance(op, dict) else None
+    if pl is None:
+        return out
+    l = pl["l"]
+    if l == var_local:
+        out.add((bi, si))
+        return out
+    key = (l, bi, si)
+    if key in _seen:
+        return out
+    _seen.add(key)
+    whole, partial, _ = pv.reaching(l, bi, si)
+    for d in whole + partial:
+        dbi, dsi, _, node = d
+        ops = []
+        if node.get("k") == "call":
+            ops = list(node.get("a", []))
+        else:
+            rv = node.get("rv", {})
+
+            def collect(x):
+                if isinstance(x, dict):
+                    if "cp" in x or "mv" in x:
+                        ops.append(x)
+                        return
+                    if "l" in x and isinstance(x.get("l"), int) and ("p" in x or len(x) == 1):
+                        ops.append({"cp": x})   # a bare place (ref / discriminant / len)
+                        return
+                    for v in x.values():
+                        collect(v)
+                elif isinstance(x, list):
+                    for v in x:
+                        collect(v)
+            collect(rv)
+        for o in ops:
+            out |= var_read_sites(fn, pv, o, dbi, dsi, var_local, _seen, _depth + 1)
+    return out
